@@ -16,7 +16,7 @@ if [ "${SKIP_SUITE:-0}" != 1 ]; then
   echo "MUTANT: repo suite passes"
 fi
 # separate build dir so the main build is not disturbed
-export VERIF_REPO="$scratch/repo" VERIF_BUILD_DIR="$scratch/build"
+export VERIF_REPO="$scratch/repo" VERIF_BUILD_DIR="$scratch/build" VERIF_EVIDENCE_DIR="$scratch/evidence" VERIF_REPLAY_DIR="${KEEP_REPLAYS:-$scratch/replays}"
 cd /verif
 for pr in $prop; do
   ./check "$pr" "$tier" > "$scratch/out.$pr.log" 2>&1; rc=$?
